@@ -379,6 +379,10 @@ impl WorkerTree {
             });
 
             for node_index in remove_nodes {
+                // unlink the node from `external_dependencies` (and restart its dependents)
+                // before removing it, like the single file case above
+                self.restart_work(node_index);
+
                 if let Some(work_item) = self.graph.remove_node(node_index) {
                     if !work_item.data.is_in_place() {
                         self.remove_files
